@@ -18,7 +18,10 @@ import (
 	"github.com/ryogrid/SamehadaDB/lib/recovery"
 	"github.com/ryogrid/SamehadaDB/lib/storage/access"
 	"github.com/ryogrid/SamehadaDB/lib/storage/disk"
+	"github.com/ryogrid/SamehadaDB/lib/storage/index/index_constants"
 	"github.com/ryogrid/SamehadaDB/lib/storage/page"
+	"github.com/ryogrid/SamehadaDB/lib/storage/table/column"
+	"github.com/ryogrid/SamehadaDB/lib/storage/table/schema"
 	"github.com/ryogrid/SamehadaDB/lib/storage/tuple"
 	"github.com/ryogrid/SamehadaDB/lib/types"
 
@@ -33,6 +36,10 @@ type c15Slot struct {
 }
 
 type c15Inst struct {
+	// sc != nil: "schema mode" - rows are tuples of (a INT, s VARCHAR, t VARCHAR) and the alphabet has the
+	// partial-column update every SQL UPDATE ... SET issues (non-SET columns arrive as NULL dummies and
+	// UpdateTuple merges them with the stored row)
+	sc       *schema.Schema
 	buf      *[common.PageSize]byte
 	tp       *access.TablePage
 	txn      *access.Transaction
@@ -48,6 +55,15 @@ var c15Log *recovery.LogManager
 
 const c15PageID = 7
 const c15DelMask = uint32(1) << 31
+
+func newC15Schema(maxSlots int, sizes []int) *c15Inst {
+	in := newC15(maxSlots, sizes)
+	in.sc = schema.NewSchema([]*column.Column{
+		column.NewColumn("a", types.Integer, false, index_constants.IndexKindInvalid, types.PageID(-1), nil),
+		column.NewColumn("s", types.Varchar, false, index_constants.IndexKindInvalid, types.PageID(-1), nil),
+		column.NewColumn("t", types.Varchar, false, index_constants.IndexKindInvalid, types.PageID(-1), nil)})
+	return in
+}
 
 func newC15(maxSlots int, sizes []int) *c15Inst {
 	if c15Log == nil {
@@ -131,9 +147,40 @@ func (in *c15Inst) Enabled() []string {
 				continue
 			}
 			ops = append(ops, fmt.Sprintf("Update(%d,%d,0)", i, sz), fmt.Sprintf("Update(%d,%d,1)", i, sz))
+			if in.sc != nil && sz >= in.c15Base() {
+				ops = append(ops, fmt.Sprintf("UpdateP(%d,%d)", i, sz))
+			}
 		}
 	}
 	return ops
+}
+
+const c15T = "tttttttttttttttttttt" // the column a partial update leaves alone
+
+// c15Base: size of a schema-mode row whose s column is empty.
+func (in *c15Inst) c15Base() int {
+	return int(tuple.NewTupleFromSchema([]types.Value{types.NewInteger(0), types.NewVarchar(""), types.NewVarchar(c15T)}, in.sc).Size())
+}
+
+func c15Str(slot, ver, n int) string {
+	b := make([]byte, n)
+	for j := range b {
+		b[j] = 'a' + byte((slot*5+ver*3+j)%26)
+	}
+	return string(b)
+}
+
+// content returns the bytes of the row (slot, ver) of the given total size (schema mode: at least the base).
+func (in *c15Inst) content(slot, ver, size int) []byte {
+	if in.sc == nil {
+		return c15Content(slot, ver, size)
+	}
+	n := size - in.c15Base()
+	if n < 0 {
+		n = 0
+	}
+	t := tuple.NewTupleFromSchema([]types.Value{types.NewInteger(int32(slot*10 + ver)), types.NewVarchar(c15Str(slot, ver, n)), types.NewVarchar(c15T)}, in.sc)
+	return append([]byte{}, t.Data()[:t.Size()]...)
 }
 
 func c15Content(slot, ver, size int) []byte {
@@ -162,6 +209,8 @@ func (in *c15Inst) Apply(op string) (viol *core.Violation) {
 		kind = "Insert"
 	} else if n, _ := fmt.Sscanf(op, "Update(%d,%d,%d)", &a, &b, &c); n == 3 {
 		kind = "Update"
+	} else if n, _ := fmt.Sscanf(op, "UpdateP(%d,%d)", &a, &b); n == 2 {
+		kind = "UpdateP"
 	} else if n, _ := fmt.Sscanf(op, "MarkDelete(%d)", &a); n == 1 {
 		kind = "MarkDelete"
 	} else if n, _ := fmt.Sscanf(op, "ApplyDelete(%d)", &a); n == 1 {
@@ -196,7 +245,8 @@ func (in *c15Inst) Apply(op string) (viol *core.Violation) {
 		if slot < len(in.slots) {
 			ver = (in.slots[slot].ver + 1) % 3
 		}
-		data := c15Content(slot, ver, size)
+		data := in.content(slot, ver, size)
+		size = len(data)
 		tpl := tuple.NewTuple(nil, uint32(size), append([]byte{}, data...))
 		free := in.free()
 		got, err := in.tp.InsertTuple(tpl, c15Log, nil, in.txn)
@@ -223,15 +273,29 @@ func (in *c15Inst) Apply(op string) (viol *core.Violation) {
 		if err != nil && mustAccept {
 			return bad("free-space", fmt.Sprintf("insert of %d bytes refused (%v) although %d bytes are not occupied", size, err, free))
 		}
-	case "Update":
+	case "Update", "UpdateP":
 		s := &in.slots[a]
 		size := b
 		ver := (s.ver + 1) % 3
-		data := c15Content(a, ver, size)
+		data := in.content(a, ver, size)
+		size = len(data)
 		newT := tuple.NewTuple(nil, uint32(size), append([]byte{}, data...))
 		oldT := new(tuple.Tuple)
 		free := in.free()
-		ok, err, _ := in.tp.UpdateTuple(newT, nil, nil, oldT, rid, in.txn, nil, c15Log, c == 1)
+		var ok bool
+		var err error
+		if kind == "UpdateP" {
+			// partial update of column s: the stored a and t stay, the caller passes NULL dummies for them
+			oldA := tuple.NewTuple(nil, uint32(len(s.data)), append([]byte{}, s.data...)).GetValue(in.sc, 0)
+			str := c15Str(a, ver, max(size-in.c15Base(), 0))
+			merged := tuple.NewTupleFromSchema([]types.Value{oldA, types.NewVarchar(str), types.NewVarchar(c15T)}, in.sc)
+			data = append([]byte{}, merged.Data()[:merged.Size()]...)
+			size = len(data)
+			partial := tuple.NewTupleFromSchema([]types.Value{types.NewNull(), types.NewVarchar(str), types.NewNull()}, in.sc)
+			ok, err, _ = in.tp.UpdateTuple(partial, []int{1}, in.sc, oldT, rid, in.txn, nil, c15Log, false)
+		} else {
+			ok, err, _ = in.tp.UpdateTuple(newT, nil, nil, oldT, rid, in.txn, nil, c15Log, c == 1)
+		}
 		want := true
 		if s.marked {
 			want = false
@@ -372,12 +436,20 @@ func init() {
 			c.Res.Bound["c15.max_slots"] = ms
 			c.Res.Bound["c15.sizes"] = fmt.Sprint(sizes, " + exactly-fills-page + one-too-big + grows-to-free-space(+1)")
 			core.BFS(c, core.SeqConfig{Name: "c15page", Fresh: func() core.Instance { return newC15(ms, sizes) }, MaxDepth: depth, SplitDepth: 2})
+			// schema mode: rows of (INT, VARCHAR, VARCHAR), full and partial-column updates
+			ssz := []int{40, 48, 140, 1300}
+			c.Res.Bound["c15.schema_mode_sizes"] = fmt.Sprint(ssz, " + the same page-filling sizes; partial update of the first VARCHAR column")
+			core.BFS(c, core.SeqConfig{Name: "c15schema", Params: "schema", Fresh: func() core.Instance { return newC15Schema(3, ssz) }, MaxDepth: depth - 1, SplitDepth: 2})
 		},
 		Replay: func(raw json.RawMessage) (string, bool) {
 			var rp struct {
 				History []string `json:"history"`
+				Params  string   `json:"params"`
 			}
 			json.Unmarshal(raw, &rp)
+			if rp.Params == "schema" {
+				return core.ReplayHistory(func() core.Instance { return newC15Schema(3, []int{40, 48, 140, 1300}) }, rp.History)
+			}
 			return core.ReplayHistory(func() core.Instance { return newC15(5, []int{1, 7, 8, 100, 1300, 2000}) }, rp.History)
 		},
 	})
